@@ -277,7 +277,7 @@ def make_judges(ctx):
 
 
 def floors(tier):
-    return [('route', r) for r in ('constructor', 'call', 'setitem', 'set_val', 'equal', 'like')] + [('read-huge-integer-bias',)] + [('carrier', c) for c in ('int8', 'int16', 'int32', 'uint8', 'uint16', 'uint64', 'float32', 'float16', 'Fxp', 'Fxp-scaled', 'int', 'float', 'float64', 'list')] + [('read', 'get_val'), ('read', 'astype'), ('read', '__call__'), ('read', 'element'), ('inferred',), ('resize',), ('raw-then-read',)] + \
+    return [('route', r) for r in ('constructor', 'call', 'setitem', 'set_val', 'equal', 'like')] + [('read-huge-integer-bias',), ('inference-tolerance',)] + [('carrier', c) for c in ('int8', 'int16', 'int32', 'uint8', 'uint16', 'uint64', 'float32', 'float16', 'Fxp', 'Fxp-scaled', 'int', 'float', 'float64', 'list')] + [('read', 'get_val'), ('read', 'astype'), ('read', '__call__'), ('read', 'element'), ('inferred',), ('resize',), ('raw-then-read',)] + \
            [('params', True, False, True), ('params', False, False, True), ('params', True, True, False), ('params', True, False, False), ('params', False, False, False)]
 
 
@@ -355,6 +355,26 @@ def run_case(case, ctx):
             _try(lambda: xr.get_val())
             _try(lambda: xr.resize(dtype=R.dtype_fxp(s, max(2, min(20, w + 1)), max(-8, nf))))
             _try(lambda: xr.astype(float))
+    # inferred sizes under another tolerance (max_error) of the fraction-length search: a scaled object is sized like the plain object holding (v - b)/s
+    if i % 4 == 1 and sc != 1:
+        me = rng.choice([2.0 ** -6, 2.0 ** -10, 2.0 ** -4])
+        uq = F(rng.randint(-200, 200), 2 ** rng.randint(3, 12))
+        vq = uq * sc + bi
+        if G.can_carry(vq, 'pyfloat') and G.can_carry(uq, 'pyfloat') and G.can_carry(vq - bi, 'pyfloat'):
+            ctx.mon.enabled = False
+            try:
+                a_ = _try(lambda: Fxp(float(vq), scale=scale, bias=bias, max_error=me))
+                b_ = _try(lambda: Fxp(float(uq), max_error=me))
+            finally:
+                ctx.mon.enabled = True
+            if a_ is not None and b_ is not None:
+                fa, fb = (a_.signed, a_.n_word, a_.n_frac), (b_.signed, b_.n_word, b_.n_frac)
+                ca, cb = int(np.asarray(a_.val).item()), int(np.asarray(b_.val).item())
+                if fa != fb or ca != cb or bool(a_.status['inaccuracy']) != bool(b_.status['inaccuracy']):
+                    ctx.violation('inference', 'Fxp(%s, scale=%r, bias=%r, max_error=%r) is %s code %d (inexact=%s); the plain object for (v-b)/s = %s is %s code %d (inexact=%s)' % (
+                        float(vq), scale, bias, me, R.dtype_fxp(*fa), ca, a_.status['inaccuracy'], float(uq), R.dtype_fxp(*fb), cb, b_.status['inaccuracy']))
+                ctx.judged(('inference-tolerance', sc > 0, bi == 0), True, None)
+                ctx.floor_hit(('inference-tolerance',))
     # equal() and like() between plain and scaled objects (either side, both sides)
     if x is not None and i % 3 == 0:
         plain = _try(lambda: Fxp(float(us[0]) if G.can_carry(us[0], 'pyfloat') else 0.0, s, w, nf, rounding=r, overflow=o))
